@@ -116,7 +116,8 @@ func generalPlan(tier string, faults bool) []PlanItem {
 		f := scnFailoverDel("failover-del2-K1", K1, "A", "B")
 		items = append(items, PlanItem{splitReplies(f, 2*f.H+53*ms-10*ms, 2*f.H+53*ms+120*ms), d})
 		ft := equalPrioTakeover(scnFailoverDel("failover-del2-takeover-equal-K1", K1, "A", "B"))
-		items = append(items, PlanItem{splitReplies(ft, 2*ft.H+53*ms-10*ms, 2*ft.H+53*ms+120*ms), d})
+		// two late replies (the winner's and the takeover Update of a sibling round): seed C07-5
+		items = append(items, PlanItem{splitReplies(ft, 2*ft.H+53*ms-10*ms, 2*ft.H+53*ms+120*ms), d + 1})
 		f3 := scnFailoverDel("failover-del3-K1", K1, "A", "B", "C")
 		items = append(items, PlanItem{splitReplies(f3, 2*f3.H+53*ms-10*ms, 2*f3.H+53*ms+120*ms), d})
 	}
@@ -170,6 +171,8 @@ func generalPlan(tier string, faults bool) []PlanItem {
 			PlanItem{scnPreemptThenRelease("preempt-then-release-K1", K1), d},
 			PlanItem{scnRestartAfterHungStop("restart-after-hung-stop-K1", K1), d},
 			PlanItem{scnReelectLinger("reelect-lingering-callbacks-K1", K1), d},
+			PlanItem{scnStopSlowWinddown("stop/promote-callback-outlives-stop-wait-K1", K1, Item{Do: "stop"}), d},
+			PlanItem{scnStopSlowWinddown("stopctx/promote-callback-outlives-stop-wait-K1", K1, Item{Do: "stopctx", DeleteKey: true}), d},
 			PlanItem{scnReelectSlowMetric("reelect-during-slow-demotion-metric-K1", K1), d},
 			PlanItem{scnTwoRoundsThenDelete("two-rounds-then-outside-delete-K1", K1), d},
 			PlanItem{scnFailoverTamper("failover-then-outside-delete-K1", K1, "delete"), d},
@@ -284,6 +287,18 @@ func scnReelectLinger(name string, k kfn) *Scenario {
 	s.Script = append(s.Script, Item{At: 1*s.H + s.H/2 + 7*us, Actor: "outside", Do: "delete"})
 	s.Horizon = 2*s.H + 5*s.H
 	return s.faultFree()
+}
+
+// stop/promote-callback-outlives-stop-wait: the leader's OnPromote callback does the leader
+// work itself and needs 5.6 s to wind down after its context was cancelled, longer than the
+// 5 s Stop (and StopWithContext without deadline) waits for the election's goroutines: the
+// stop call takes its wait-timeout exit. B follows and takes over.
+func scnStopSlowWinddown(name string, k kfn, stop Item) *Scenario {
+	s := scnStop(name, k, stop, "A", "B")
+	s.Insts[0].PromoteLinger = 5600 * ms
+	s.Horizon = 2*s.H + 37*ms + 5600*ms + 800*ms
+	s.DevUntil = 2*s.H + 37*ms + 400*ms
+	return s
 }
 
 // two-rounds-then-outside-delete: B follows a record written from outside; the record is
